@@ -190,3 +190,15 @@ MANIFEST_TEXT["C09"] = {'text': 'Lean theorems over all byte strings / all messa
  'note': 'Trusted: Lean kernel, extractor, harness. Inputs assumed < 2^32 bytes (uint32 truncation not modelled). Serialisers modelled as '
          'check-then-concatenate (justified by layout_contiguous + behavioural comparison). protobuf decoding itself is not modelled.',
  'technique': 'Lean 4 proof over a Go-faithful executable model + differential correspondence'}
+
+PROPS["C18"] = {
+    "rule": "rtmr.ParseCcelWithTdQuote on the repository's CCEL log with the cos-113 sample quote: genuine under the library's default options; header/body re-signed under a generated PKI (so RTMRs can change while every signature stays valid); every single-bit change of each RTMR (1/16 sample in quick, all 4x384 in thorough); 7 verification faults; 5 policy variants incl. right/wrong/empty nonce; every structural mutation of the message; unsupported Go types. Gate facts (verification alone, validation alone, direct go-eventlog replay against the harness's own bank) feed the model; rtmr.GetRtmrsFromTdQuote directly on every structural mutant. non-trivial = both gates pass; distinct by case line",
+    "trusted_base": ["go-eventlog's replay (ccel.ReplayAndExtract) is a parameter: its verdict for the quote's RTMR bank is computed by calling it directly",
+                     "verify.TdxQuote / validate.TdxQuote are parameters here (their own correctness is C01-C14); their verdicts when called alone are the gate facts"],
+    "assumptions": ["the gates are deterministic functions of (quote, options) — guaranteed by C12's no-history theorem"],
+}
+MANIFEST_TEXT["C18"] = {
+    "text": "Lean theorems over the gate sequencing of ParseCcelWithTdQuote for arbitrary gate outcomes and replay functions (state_implies_gates, gates_passed, failure_returns_no_state, replay_mismatch_returns_no_state) and over GetRtmrsFromTdQuote for every message (bank_is_quote_rtmrs: entry i = (i, RTMR i), at most four; five_rtmrs_is_error; getRtmrs_never_panics; F12 witness), compared with the real function on a re-signed sample quote with every RTMR bit flipped, gate faults and structural mutants.",
+    "note": "Trusted: Lean kernel, extractor, harness. Replay semantics are go-eventlog's (parameter); which registers the sample log has events for is observed through the direct replay call.",
+    "technique": "Lean 4 proof (sequencing over parametric gates) + differential correspondence",
+}
